@@ -49,4 +49,21 @@ example : setParse exP false [['-','e'], ['-','u'], ['-','o'], "portable".toList
 example : setParse exP false [['-','o'], "portable".toList, '-' :: 'e' :: 'o' :: "errexit".toList] = .error .unseparated := by rfl
 example : setParse exP false [['-','o'], "portable".toList, ['-','e'], '-' :: 'o' :: "errexit".toList] = .error .unseparated := by rfl
 
+/-! ## the shell's own command line -/
+
+/-- ★ the command line's option loop, for every answer table (`-o portable` may be named), every `portable` state and
+    `Run` so far, every vector: the mode-following separated spelling `separateMsh` leaves the same result -/
+theorem sh_loop_separated_same_any_portable (nm : Names) (p : Bool) (r : Run) (args : List Str) :
+    shLoop nm p r (separateMsh nm p args) = shLoop nm p r args :=
+  shLoop_separateM nm args.length args p r (Nat.le_refl _)
+
+/-- ★ … hence the same `Run` / `Help` / `Version` / error from `parse` (`sh_separated_same` needed "`portable` never named") -/
+theorem sh_separated_same_any_portable (nm : Names) (arg0 : Str) (args : List Str) :
+    shParse nm (arg0 :: separateMsh nm false args) = shParse nm (arg0 :: args) := by
+  simp only [shParse]
+  rw [sh_loop_separated_same_any_portable]
+
+example : separateMsh exP false [['-','e','o'], "portable".toList, ['-','e','u','o','x'], ['f']] =
+    [['-','e'], ['-','o'], "portable".toList, ['-','e'], ['-','u'], ['-','o','x'], ['f']] := by decide
+
 end YashModel.Args.Bespoke
